@@ -45,7 +45,7 @@ def generate(chk, prop, tier, seed):
                 behs.append(b)
     if prop == "C08":
         # third family: ALL statement streams up to a bound over an alphabet of structural items, judged by Nest (Streams.tla)
-        for cfg in (["Streams_quick.cfg"] if tier == "quick" else ["Streams_thorough.cfg", "Streams_do.cfg"]):
+        for cfg in (["Streams_quick3.cfg", "Streams_quick.cfg"] if tier == "quick" else ["Streams_thorough.cfg", "Streams_do.cfg"]):
             r = tlc.run("MCStreams.tla", cfg, timeout=20000)
             if not r.ok():
                 raise MachineryError("TLC failed on %s: %s %s" % (cfg, r.invariant_violated, r.error))
